@@ -119,6 +119,26 @@ def single_element(body: LT):
     return None
 
 
+def alternatives(body: LT):
+    """[(guard, element)] when the body of a MapSeg is a run of guarded single elements (nested guards conjoined),
+    else None"""
+    out = []
+
+    def walk(lt: LT, cond) -> bool:
+        for x in strip_empty(lt).segs:
+            if isinstance(x, Unit):
+                out.append((cond, x.v))
+            elif isinstance(x, Guard):
+                if not walk(x.lt, x.cond if cond is None else z3.And(cond, x.cond)):
+                    return False
+            else:
+                return False
+        return True
+    if not walk(body, None) or any(g is None for g, _ in out) and len(out) > 1:
+        return None
+    return out
+
+
 def lt_length(lt: LT, abs_len: Callable[[Abs], z3.ArithRef]) -> z3.ArithRef:
     total: Any = z3.IntVal(0)
     for s in lt.segs:
